@@ -95,20 +95,38 @@ impl RFile {
                 }
             },
         }
-        let mut segss = vec![a.segs.clone()];
-        if a.segs != b.segs {
-            segss.push(b.segs.clone());
-        }
-        let mut out = vec![];
-        for s in &segss {
-            for v in &verifs {
+        // The segment list and the per-segment verification entries describe ONE segmentation of the file and
+        // have to come from the same record; when the two records are segmented differently (the same file
+        // deduplicated against different data) the result is one side's segmentation with that side's
+        // verification.  If either side carries verification the result must carry it as well.
+        let need_v = a.verif.is_some() || b.verif.is_some();
+        let _ = verifs;
+        let mut out: Vec<RFile> = vec![];
+        for (x, y) in [(a, b), (b, a)] {
+            let mut vopts: Vec<Option<Vec<K>>> = vec![];
+            if !need_v {
+                vopts.push(None);
+            } else {
+                if let Some(v) = &x.verif {
+                    vopts.push(Some(v.clone()));
+                }
+                if let (Some(v), true) = (&y.verif, y.segs == x.segs) {
+                    if !vopts.contains(&Some(v.clone())) {
+                        vopts.push(Some(v.clone()));
+                    }
+                }
+            }
+            for v in &vopts {
                 for m in &shas {
-                    out.push(RFile {
+                    let f = RFile {
                         hash: a.hash,
-                        segs: s.clone(),
+                        segs: x.segs.clone(),
                         verif: v.clone(),
                         sha: *m,
-                    });
+                    };
+                    if !out.contains(&f) {
+                        out.push(f);
+                    }
                 }
             }
         }
